@@ -194,7 +194,7 @@ func TestVerifC11Regproc(t *testing.T) {
 	defer rec.Close()
 	h := verifC11RegprocSetup(t)
 	h.rec = rec
-	kit.C11Drive(rec, kit.C11Entry{Name: verifC11RegprocEntry, N: kit.Tier(40000, 2000000), Workers: 4,
+	kit.C11Drive(rec, kit.C11Entry{Name: verifC11RegprocEntry, N: kit.Tier(40000, 1000000), Workers: 4,
 		Gen: verifC11RegprocGen, Exec: h.verifExec, SampleEvery: 5000})
 	rec.Count("messages_handed_to_zmq", h.snd.n)
 }
